@@ -73,6 +73,85 @@ CHECKS = {
             "compared with the reference's legality; fuzzed text must yield "
             "a valid object or a ValueError subclass within a step budget.",
             "6 C09"),
+    "C10": ("trace checker over recorded Duration.__str__ / "
+            "DurationParser.parse chains with a reference designator "
+            "encoder",
+            "Single-signed durations are written and read back (components, "
+            "==, hash, str fixpoint); designator/weeks strings spelled by a "
+            "reference encoder and alternative date-time-like spellings "
+            "must decode to the spelled components.", "6 C10"),
+    "C11": ("reference-key postconditions on every Duration operator and "
+            "length accessor; online oracle and offline consistency checker "
+            "over the recorded comparison/hash log",
+            "Every Duration operation observed is compared with the key "
+            "(years, months, exact seconds); comparisons with the rough-"
+            "length rule per calendar mode; the algebraic laws are driven on "
+            "the real operators; TimeZone excluded.", "6 C11"),
+    "C12": ("generator wrapper on TimeRecurrence.__iter__ (series log) with "
+            "an offline series checker using reference point arithmetic",
+            "Every iteration observed is checked for anchor, step relation, "
+            "order, count and anchor membership; the three notations of one "
+            "finite exact series must be equal and iterate identically. One "
+            "listed known finding (nominal bounded far anchor).", "6 C12"),
+    "C13": ("postcondition monitors on the five recurrence queries against "
+            "the series the same object iterates",
+            "get_is_valid, __getitem__, get_next, get_prev and "
+            "get_first_after are decided on every call against the object's "
+            "own enumerated series (closed form beyond the prefix for exact "
+            "intervals), with probes on/between/around/after members in "
+            "other spellings.", "6 C13"),
+    "C14": ("postcondition monitors on TimeRecurrence +/- Duration reading "
+            "both series from the real iterators; sibling / twin / text "
+            "round-trip workloads on the real ==, hash, str, parser",
+            "Shifts keep repetitions and interval and move every point (exact "
+            "intervals) or the given anchors (nominal) by d; one-component "
+            "siblings are unequal; re-spelled twins equal with equal hashes "
+            "and series; parse(str(r)) == r.", "6 C14"),
+    "C15": ("mode-history monitor on Calendar.set_mode, reference "
+            "postconditions on calendar helpers and their memoised inner "
+            "functions, offline comparison of battery results with fresh "
+            "single-mode processes",
+            "Histories of mode switches over the 7 spellings interleaved "
+            "with a few-keys battery (every ordered pair of modes, then the "
+            "whole battery; random interleavings; CLI option/env/neither; "
+            "real child processes) must equal what a fresh process of the "
+            "current mode computes.", "6 C15"),
+    "C16": ("write barrier (class-level __setattr__ on the slotted classes) "
+            "plus slot/str/hash snapshots over random API programs",
+            "Any slot write to an object the workload has already held is a "
+            "violation; every pool member's snapshot is re-compared after "
+            "steps of seeded programs drawn from the whole public API.",
+            "6 C16"),
+    "C17": ("postcondition monitors on TimePointDumper.strftime and "
+            "TimePointParser.strptime against a reference POSIX renderer",
+            "Every strftime observed over the supported directives must "
+            "equal the POSIX rendering of the civil date-time; determining "
+            "formats are read back to the same instant; partial formats "
+            "default to period start / assumed zone; other %-letters are "
+            "refused.", "6 C17"),
+    "C18": ("reference postconditions on the epoch constructor, "
+            "seconds_since_unix_epoch, get_local_time_zone(_format) under "
+            "mocked and real (TZ+tzset) system zones",
+            "Second counts over +-1e11 and points in all spellings are "
+            "converted against reference instants; the local offset split "
+            "and its three text forms are checked for every whole-minute "
+            "offset within +-24 h in the thorough tier.", "6 C18"),
+    "C19": ("monitor on main.main (argv/env/stdout/stderr/exit) with "
+            "reference-encoded inputs and expected outputs; probe on the "
+            "lenient strptime fallback; child-process sample",
+            "Argument vectors in every input notation, offset spelling, "
+            "--utc/--calendar/--ref/env, pairs with --as-total, recurrences "
+            "with --max must print the reference's expectation; malformed "
+            "arguments must exit non-zero with a message and no traceback.",
+            "6 C19"),
+    "C20": ("postcondition monitor on truncated + full TimePoint addition "
+            "against a reference next-match search; logical step budget; "
+            "idempotence on the real operator",
+            "Every truncated addition observed must return the earliest "
+            "matching instant >= p in p's offset, be idempotent and finish "
+            "within a step budget derived from the reference distance. One "
+            "listed known finding (day designator + minute/second without "
+            "hour).", "6 C20"),
 }
 
 LEVEL_NOTE = ("Trusted: CPython 3.12 int/Fraction arithmetic, rtv/refmodel.py "
